@@ -601,6 +601,9 @@ def run(run):
             unreg[k] = unreg.get(k, 0) + v
     byf = _account(run, results)
     run.notes['cases_by_function'] = byf
+    # the same calls in four orders, each order in ONE fresh process (state left behind by earlier calls)
+    from harness import calls as _calls
+    _calls.replay_orders(run, blocks, Replayer(paths=('direct', 'wrapped')), key=lambda b: len(b), sample=20000)
     run.notes['functions_not_registered_by_the_library'] = unreg
     run.rule = ('cases = all done-states of MC_C16 (signed decimals of up to MaxDig digits x exponents -3..2, tie families '
                 'p5 / p49999 / p50001 / 15-digit near-ties at every position x digit counts; CEILING/FLOOR x 15 significances; '
